@@ -408,22 +408,4 @@ theorem pulse_correlations_sum_to_total {G : Nat} (ω : Vec ℝ nO)
 
 /-! ### Source shape -/
 
-/-- **Source shape.**  The branch selector of `infidelity`, its last statements (both branches, the
-`/ pulse.d`, the `2*np.pi*pulse.d` divisor), the tail of `calculate_decay_amplitudes` (one-shot and
-memory-parsimonious paths, the `2*np.pi` divisor) and the contraction strings used by the models
-are pinned to the current source text. -/
-theorem infidelity_source_shape :
-    Gen.infidelityBranchTests = "not pulse.basis.istraceless ; not pulse.basis.istraceless" ∧
-    Gen.infidelityTail = "if test_convergence: if not callable(spectrum): raise TypeError('Spectrum should be callable when test_convergence == True.') try: omega_IR = omega.get('omega_IR', 2 * np.pi / pulse.tau * 0.01) except AttributeError: raise TypeError('omega should be dictionary with parameters ' + 'when test_convergence == True.') omega_UV = omega.get('omega_UV', 2 * np.pi / pulse.tau * 100.0) spacing = omega.get('spacing', 'linear') n_min = omega.get('n_min', 100) n_max = omega.get('n_max', 500) n_points = omega.get('n_points', 10) if spacing == 'linear': xspace = np.linspace elif spacing == 'log': xspace = np.geomspace else: raise ValueError(\"spacing should be either 'linear' or 'log'.\") delta_n = (n_max - n_min) // (n_points - 1) n_samples = np.arange(n_min, n_max + delta_n, delta_n) convergence_infids = np.empty((len(n_samples), len(idx))) for i, n in enumerate(n_samples): freqs = xspace(omega_IR, omega_UV, n) convergence_infids[i] = infidelity(pulse, spectrum(freqs), freqs, n_oper_identifiers=n_oper_identifiers, which='total', show_progressbar=show_progressbar, cache_intermediates=False, return_smallness=False, test_convergence=False) return (n_samples, convergence_infids) ; if which == 'total': if not pulse.basis.istraceless: traces = pulse.basis.four_element_traces traces_diag = (sparse.diagonal(traces, axis1=2, axis2=3).sum(-1) - sparse.diagonal(traces, axis1=1, axis2=3).sum(-1)).todense() control_matrix = pulse.get_control_matrix(omega, show_progressbar, cache_intermediates) filter_function = np.einsum('ako,blo,kl->abo', control_matrix.conj(), control_matrix, traces_diag) / pulse.d else: filter_function = pulse.get_filter_function(omega, which='fidelity', show_progressbar=show_progressbar, cache_intermediates=cache_intermediates) identity_idx = _identity_element_index(pulse.basis) if identity_idx.size: control_matrix = pulse.get_control_matrix(omega)[:, identity_idx] filter_function = filter_function - np.einsum('ako,bko->abo', control_matrix.conj(), control_matrix) else: if pulse.is_cached('omega') and (not np.array_equal(pulse.omega, omega)): raise ValueError('Pulse correlation infidelities requested ' + 'but omega not equal to cached frequencies.') identity_idx = _identity_element_index(pulse.basis) if not pulse.basis.istraceless: traces = pulse.basis.four_element_traces traces_diag = (sparse.diagonal(traces, axis1=2, axis2=3).sum(-1) - sparse.diagonal(traces, axis1=1, axis2=3).sum(-1)).todense() control_matrix = pulse.get_pulse_correlation_control_matrix() filter_function = np.einsum('gako,hblo,kl->ghabo', control_matrix.conj(), control_matrix, traces_diag) / pulse.d else: filter_function = pulse.get_pulse_correlation_filter_function() if identity_idx.size: if pulse.is_cached('control_matrix_pc'): control_matrix = pulse.get_pulse_correlation_control_matrix()[:, :, identity_idx] filter_function = filter_function - np.einsum('gako,hbko->ghabo', control_matrix.conj(), control_matrix) elif util.remove_float_errors(np.einsum('ajj', pulse.n_opers[idx]), pulse.d).any(): raise util.CalculationError('Pulse correlation infidelities of noise operators with nonzero trace ' + 'require the pulse correlation control matrix, which is not cached.') ; integrand = _get_integrand(spectrum, omega, idx, which, 'fidelity', filter_function=filter_function) ; infid = util.integrate(integrand, omega) / (2 * np.pi * pulse.d) ; if return_smallness: if spectrum.ndim > 2: raise NotImplementedError('Smallness parameter only implemented ' + 'for uncorrelated noise sources') T1 = util.integrate(spectrum, omega) / (2 * np.pi) T2 = (pulse.dt * pulse.n_coeffs[idx]).sum(axis=-1) ** 2 T3 = util.abs2(pulse.n_opers[idx]).sum(axis=(1, 2)) xi = np.sqrt((T1 * T2 * T3).sum()) return (infid, xi) ; return infid" ∧
-    Gen.decayAmplitudesTail = "idx = util.get_indices_from_identifiers(pulse.n_oper_identifiers, n_oper_identifiers) ; if which == 'total': if pulse.is_cached('filter_function_gen'): control_matrix = None filter_function = pulse.get_filter_function(omega, which='generalized') else: control_matrix = pulse.get_control_matrix(omega, show_progressbar, cache_intermediates) filter_function = None else: if pulse.is_cached('omega'): if not np.array_equal(pulse.omega, omega): raise ValueError('Pulse correlation decay amplitudes requested but omega not ' + 'equal to cached frequencies.') if pulse.is_cached('filter_function_pc_gen'): control_matrix = None filter_function = pulse.get_pulse_correlation_filter_function(which='generalized') else: control_matrix = pulse.get_pulse_correlation_control_matrix() filter_function = None ; if not memory_parsimonious: integrand = _get_integrand(spectrum, omega, idx, which, 'generalized', control_matrix=control_matrix, filter_function=filter_function) decay_amplitudes = util.integrate(integrand, omega) / (2 * np.pi) return decay_amplitudes ; n_kl = len(pulse.basis) ; for k in util.progressbar_range(n_kl, show_progressbar=show_progressbar, desc='Integrating'): if control_matrix is not None: integrand = _get_integrand(spectrum, omega, idx, which, 'generalized', control_matrix=[control_matrix[..., k:k + 1, :], control_matrix], filter_function=filter_function) else: integrand = _get_integrand(spectrum, omega, idx, which, 'generalized', control_matrix=control_matrix, filter_function=filter_function[..., k:k + 1, :, :]) if k == 0: decay_amplitudes = np.empty(integrand.shape[:-3] + (n_kl,) * 2) decay_amplitudes[..., k:k + 1, :] = util.integrate(integrand, omega) / (2 * np.pi) ; return decay_amplitudes" ∧
-    Gen.numeric__get_integrand_3_subscripts = "...ko,...o,...lo->...klo" ∧
-    Gen.numeric__get_integrand_7_subscripts = "ako,abo,blo->abklo" ∧
-    Gen.numeric__get_integrand_call0_args
-      = ["ctrl_left[..., idx, :, :]", "spectrum", "ctrl_right[..., idx, :, :]"] ∧
-    Gen.numeric_infidelity_0_subscripts = "ako,blo,kl->abo" ∧
-    Gen.numeric_infidelity_0_args = ["control_matrix.conj()", "control_matrix", "traces_diag"] ∧
-    Gen.numeric_infidelity_1_subscripts = "ako,bko->abo" ∧
-    Gen.numeric_calculate_filter_function_0_subscripts = "ako,bko->abo" :=
-  ⟨rfl, rfl, rfl, rfl, rfl, rfl, rfl, rfl, rfl, rfl⟩
-
 end FFVerif.C08
